@@ -112,7 +112,7 @@ pub fn run_one(prop: &dyn Prop, tape: Tape, trace: bool, want_sample: bool) -> R
                 (
                     Some((
                         format!("{id}/step-cap-livelock"),
-                        format!("no quiescence within {} steps", w.step_cap),
+                        format!("no quiescence within {} steps (steps by seam: {:?})", w.step_cap, w.tick_sites),
                     )),
                     None,
                 )
